@@ -222,7 +222,7 @@ for _pid, (_t, _x) in EXTRA3.items():
 EXTRA4 = {
  "C01": ("; in-place, bytearray, associated-data-only and extra-cipher-parameter variants of the compositions", ""),
  "C02": ("; extra cipher parameters reach every underlying cipher instance (composition rows)", ""),
- "C03": ("; HMAC object histories over a functional stand-in hash; Poly1305-ChaCha20 key derivation rows",
+ "C03": ("; HMAC object histories over a functional stand-in hash; Poly1305-ChaCha20 key derivation rows; SHA-3 / SHAKE / cSHAKE / KMAC / TupleHash / TurboSHAKE / KangarooTwelve as whole Python stacks over an exact model of the native sponge",
          " Also decided: HMAC digest() is an observer and copies continue independently (histories against Python's hmac); the one-time Poly1305 key uses 00000000 || nonce for 64-bit nonces."),
  "C04": ("; EdDSA point decoding composition against RFC 8032; long-form length rows for DER signatures", ""),
  "C05": ("; RSA.construct from (n, e, d) on moduli that are not products of two primes; ElGamal.generate intervals", ""),
